@@ -209,7 +209,10 @@ where
     type Stream = Self;
 
     fn into_parts(self) -> (Vector<VectorDiffContainerStreamElement<S>>, Self::Stream) {
-        (self.buffered_vector.clone(), self)
+        // The initial values are the current view, not the buffered source.
+        let mut values = self.buffered_vector.clone();
+        values.truncate(self.limit);
+        (values, self)
     }
 }
 
